@@ -157,7 +157,8 @@ def drive(tier):
 def run(tier):
     rep = Report("C20", tier)
     rep.add_mc("MC_Bloom", vlib.run_mc("MC_Bloom", cfg="MC_Bloom" if tier == "quick" else "MC_Bloom_thorough"))
-    recs = drive(tier)
+    recs, nsecond, ndiff = vlib.second_pass(drive, tier)
+    rep.cov["second_pass_calls"], rep.cov["second_pass_differing"] = nsecond, ndiff
     for x in recs:
         x["_cost"] = 300 + len(x["out"].get("data", [])) * 6
     mm = vlib.validate("Trace_Bloom", recs)
